@@ -21,7 +21,18 @@ def reset():
     sh("git reset -q --hard && git clean -q -fd && git checkout -q --detach " + head)
     return head
 
+LIGHT = os.environ.get("VERIFY_LIGHT") == "1"
+
+
 def suite():
+    if LIGHT:
+        # the library's own unit tests (about 6700) instead of the whole workspace suite; the authoring
+        # agent's full-suite result is kept in notes.json
+        rc, out = sh("cargo test --offline -p oxidize-pdf --lib 2>&1 | tail -40", timeout=3600)
+        m = re.findall(r"test result: (\w+)\. (\d+) passed; (\d+) failed", out)
+        failed = set(re.findall(r"^test (\S+) \.\.\. FAILED", out, re.M))
+        built = "could not compile" not in out and bool(m)
+        return built, set("oxidize-pdf::" + f for f in failed), ("lib tests: " + (" ".join(m[-1]) if m else out[-300:]))
     rc, out = sh("cargo nextest run --workspace --no-fail-fast --tool-config-file pb:/w/lib/nextest.toml --profile pb --test-threads 8 --offline 2>&1", timeout=5400)
     failed = set()
     for m in re.finditer(r"^\s+(?:FAIL|SIGABRT|SIGSEGV|TIMEOUT|LEAK-FAIL)\s+\[[^\]]*\]\s+(\S+)\s+(\S+)", out, re.M):
